@@ -9,7 +9,7 @@ Summary of what is proved (entry point × outcome):
 
 | entry | outcome | frames / base / min_frame_registers / placeholders | registers | builders |
 |---|---|---|---|---|
-| pushes a barrier frame (`run`, `call_and_run_function` on a Koto callee, `run_*_op` on a Koto overload, each test of `run_tests`, `run` inside `run_import`) | ok, thrown, runtime error, failed type check, failed test, timeout, error in a nested entry, … (every event list) | restored (`entry_clean_frames`) | no residue (`entry_no_register_residue`) | restored iff no error unwinds through a builder opened inside (`raise_keeps_builders`, negations `run_builders_not_clean_*`) |
+| pushes a barrier frame (`run`, `call_and_run_function` on a Koto callee, `run_*_op` on a Koto overload, each test of `run_tests`, `run` inside `run_import`) | ok, thrown, runtime error, failed type check, failed test, timeout, error in a nested entry, … (every event list) | restored (`entry_clean_frames`) | restored exactly (`entry_regs_restored`, `entry_clean`; no residue even without the no-wrap hypothesis: `entry_no_register_residue`) | restored iff no error unwinds through a builder opened inside (`raise_keeps_builders`, negations `run_builders_not_clean_*`) |
 | `call_and_run_function`, native callee | returns Ok / Err | restored (`entry_native_frames`) | restored (`call_native_ok_clean`, `call_native_err_clean` — since fix 5247d9c) | – |
 | `call_and_run_function`, `call_callable` fails (argument count, …) | – | restored | restored (`call_setup_fail_clean` — since fix 5247d9c) | – |
 | `run_*_op` through `call_overridden_op_N`, native overload returns Err / `call_callable` fails | – | restored | restored (`opcall_native_err_clean`, `opcall_setup_fail_clean`, `op_arith_overload_err_clean` — since fix d4834c0) | – |
@@ -18,6 +18,7 @@ Summary of what is proved (entry point × outcome):
 -/
 import KotoVerif.Model.Unwind
 import KotoVerif.Lemmas.C07
+import KotoVerif.Lemmas.C07Regs
 
 namespace KotoVerif.C07
 open KotoVerif.Unwind
@@ -85,6 +86,68 @@ theorem entry_no_register_residue (s : St) (pre args a : Nat) (evs : List Ev)
   simp only [nextRegister] at h
   rw [Nat.mod_eq_of_lt hw] at h
   omega
+
+/-- **entry_clean (registers)**: under the no-wrap hypothesis for the entry's *own* window
+(`regs - base + pre < 256`; nothing is assumed about nested entries — their result registers may
+wrap, every frame they use still lies above `regs`), the value stack has exactly its old length
+when the entry returns: nothing is left behind and nothing of the caller's is cut off, for every
+execution and every outcome. -/
+theorem entry_regs_restored (s : St) (pre args a : Nat) (evs : List Ev)
+    (hhost : inLoop s = false) (hc : Consistent s.vm) (hw : s.vm.regs - s.vm.base + pre < 256)
+    (hex : Exited s (runEntry pre args (.koto a) evs s)) :
+    (runEntry pre args (.koto a) evs s).vm.regs = s.vm.regs := by
+  have hr := hc.regs
+  have hup := entry_no_register_residue s pre args a evs hhost hc (by omega) hex
+  have hfr := (entry_clean_frames s pre args a evs hhost hc hex).1
+  let x0 : Exit := .truncate (nextRegister s.vm)
+  have hw1 : (s.vm.regs - s.vm.base) % 256 = s.vm.regs - s.vm.base := Nat.mod_eq_of_lt (by omega)
+  have hw2 : (s.vm.regs + pre - s.vm.base) % 256 = s.vm.regs + pre - s.vm.base :=
+    Nat.mod_eq_of_lt (by omega)
+  have h0 : Inv s (.loop x0) (enter pre args (.koto a) s) [.loop x0] := by
+    refine ⟨?_, ?_, ?_, ?_, ?_, ?_, ?_⟩
+    · simp [enter, enterWith, x0]
+    · simp [enter, enterWith, callKoto, pushFrame, peelAll, dropLoop]
+    · simp [enter, enterWith, callKoto, pushFrame, topBase]
+    · intro hl; simp [hasLoop] at hl
+    · simp [enter, enterWith, callKoto, pushFrame, impMods]
+    · intro _; rfl
+    · intro hn; simp at hn
+  have hself : GeAbove s.vm.regs s.vm.stack s.vm.stack := by
+    intro X hX f hf
+    have : X = [] := List.self_eq_append_left.mp hX
+    subst this; simp at hf
+  have hl0 : Low s.vm.regs (.loop x0) s.vm.stack (enter pre args (.koto a) s) [.loop x0] := by
+    refine ⟨fun _ => ?_, fun _ => ?_, fun hn => by simp at hn⟩
+    · simp [enter, enterWith, callKoto, pushFrame, nextRegister, hw2]; omega
+    · simp only [enter, enterWith, callKoto, pushFrame]
+      exact GeAbove_cons _ _ _ _ [] rfl (by simp [nextRegister, hw2]; omega) hself
+  obtain ⟨Y', h', hl'⟩ := runUntil_low s x0 hhost hc s.vm.regs evs _ _ h0 hl0
+  have hY : Y' = [] := by
+    have := h'.conts
+    have hex' : (runEntry pre args (.koto a) evs s).conts.length ≤ s.conts.length := hex
+    simp only [runEntry] at hex'
+    rw [this] at hex'
+    simp at hex'
+    exact List.eq_nil_of_length_eq_zero (by omega)
+  have hd := hl'.doneR hY
+  simp only [DoneR, x0] at hd
+  have hb : (runUntil s.conts.length evs (enter pre args (.koto a) s)).vm.base = s.vm.base := hfr.2.1
+  rw [hb] at hd
+  simp only [nextRegister, hw1] at hd
+  have hup' : (runUntil s.conts.length evs (enter pre args (.koto a) s)).vm.regs ≤ s.vm.regs := hup
+  show (runUntil s.conts.length evs (enter pre args (.koto a) s)).vm.regs = s.vm.regs
+  omega
+
+/-- **entry_clean**: every component of the runtime's bookkeeping except the builder depths is
+restored by every entry through a Koto callee, for every execution and outcome. -/
+theorem entry_clean (s : St) (pre args a : Nat) (evs : List Ev)
+    (hhost : inLoop s = false) (hc : Consistent s.vm) (hw : s.vm.regs - s.vm.base + pre < 256)
+    (hex : Exited s (runEntry pre args (.koto a) evs s)) :
+    let s' := runEntry pre args (.koto a) evs s
+    s'.vm.regs = s.vm.regs ∧ CleanFrames s.vm s'.vm ∧ s'.conts = s.conts :=
+  ⟨entry_regs_restored s pre args a evs hhost hc hw hex,
+   (entry_clean_frames s pre args a evs hhost hc hex).1,
+   (entry_clean_frames s pre args a evs hhost hc hex).2.1⟩
 
 /-- Host-level corollary (the shape of C07): on an instance whose bookkeeping is all-zero, a
 `run` / `call_function` on a Koto callee, with any execution and any outcome, leaves registers,
@@ -603,6 +666,22 @@ theorem entry_clean_partial (s : St) (pre args a : Nat) (evs : List Ev)
   simp only [] at h
   refine ⟨by rw [h.1, hregs], by rw [h.2.1, hstack], by rw [h.2.2.1, hbase], by rw [h.2.2.2.1, hmin],
     ?_, ?_, h.2.2.2.2.1⟩
+  · show (runUntil _ _ _).vm.seq = _
+    rw [hbu.1]; simp [enter, enterWith, callKoto, pushFrame]
+  · show (runUntil _ _ _).vm.str = _
+    rw [hbu.2]; simp [enter, enterWith, callKoto, pushFrame]
+
+/-- The same for an arbitrary consistent caller state (e.g. a native callback deep inside a run). -/
+theorem entry_clean_builder_free (s : St) (pre args a : Nat) (evs : List Ev)
+    (hhost : inLoop s = false) (hc : Consistent s.vm) (hw : s.vm.regs - s.vm.base + pre < 256)
+    (hb : builderFree evs = true)
+    (hex : Exited s (runEntry pre args (.koto a) evs s)) :
+    Clean s.vm (runEntry pre args (.koto a) evs s).vm := by
+  have h := entry_clean s pre args a evs hhost hc hw hex
+  have hbu := runUntil_builders s.conts.length evs (enter pre args (.koto a) s) hb
+  simp only [] at h
+  obtain ⟨h1, ⟨h2, h3, h4, h5⟩, _⟩ := h
+  refine ⟨h1, h2, h3, h4, ?_, ?_, h5⟩
   · show (runUntil _ _ _).vm.seq = _
     rw [hbu.1]; simp [enter, enterWith, callKoto, pushFrame]
   · show (runUntil _ _ _).vm.str = _
